@@ -6,9 +6,34 @@ from .. import defects, gen, oracles, world
 from ._tree import make
 
 
+def same_relative_name(rng):
+    """two files with the SAME history-relative path in two different histories (x.txt at the root and N/x.txt below a
+    folder with its own history), recorded at different times: what counts as 'first recorded' is decided per history"""
+    name = rng.choice(["x.txt", "clip.mov", "a"])
+    sub = rng.choice(["N", "Reel 2", "a b"])
+    inner, outer = gen.gen_content(rng) or "11", gen.gen_content(rng) or "22"
+    steps = []
+    if rng.random() < 0.5:
+        # the nested file is recorded first, the outer one appears later
+        tree = {sub: {"d": {name: {"f": inner}}}, "other.bin": {"f": "0102"}}
+        steps += [{"op": "create", "root": sub, "fmts": gen.gen_fmts(rng)}, {"op": "create", "fmts": gen.gen_fmts(rng)},
+                  {"op": "add", "path": name, "data": outer}]
+    else:
+        # the outer file is recorded first (the folder gets its own history before it holds the file)
+        tree = {sub: {"d": {"first.bin": {"f": "0304"}}}, name: {"f": outer}}
+        steps += [{"op": "create", "root": sub, "fmts": gen.gen_fmts(rng)}, {"op": "create", "fmts": gen.gen_fmts(rng)},
+                  {"op": "add", "path": sub + "/" + name, "data": inner}]
+    if rng.random() < 0.5:
+        steps.append({"op": "set", "path": rng.choice([name, sub + "/" + name]), "data": gen.gen_content(rng) or "33"})
+    steps += [{"op": "create", "fmts": gen.gen_fmts(rng, kmax=6)}, {"op": "verify"}, {"op": "create", "fmts": gen.gen_fmts(rng, kmax=6)}]
+    return {"tree": tree, "steps": steps}
+
+
 def scenario(rng, i):
     """a file (alone, in a small tree, or inside a nested history) sealed over 2-6 generations with changing
     format subsets, its content kept / altered / restored in between, folder mode and -sf mode"""
+    if i % 7 == 5:
+        return same_relative_name(rng)
     if i % 3 == 0:
         tree = {"a.txt": {"f": gen.gen_content(rng)}}
     else:
@@ -41,7 +66,7 @@ def scenario(rng, i):
     return {"tree": tree, "steps": steps}
 
 
-RULE = ("format-sequence scenarios: one file (alone / in a tree / in a nested history), 2-6 generations with random non-empty format subsets (1-6 of the six "
+RULE = ("format-sequence scenarios (one in seven: two files with the same history-relative path in two different histories, recorded at different times): one file (alone / in a tree / in a nested history), 2-6 generations with random non-empty format subsets (1-6 of the six "
         "formats), content kept (half of the scenarios) or altered / restored between generations, folder mode and -sf; thorough adds every sequence of length "
         "<= 3 over a 3-format alphabet for unaltered content. Oracle: actions recomputed from the generations read back independently. Non-trivial: >= 3 generations.")
 
